@@ -163,7 +163,6 @@ package cli
 //@   ensures err == nil ==> e.depth == old(e.depth)
 
 //@ func (e *encoder) encodeArray(vs []any) (err error)
-//@   flag nosafety
 //@   property C12
 //@   requires e.w != nil
 //@   modifies *
@@ -172,7 +171,6 @@ package cli
 //@   ensures err == nil ==> e.depth == old(e.depth)
 
 //@ func (e *encoder) encodeObject(vs map[string]any) (err error)
-//@   flag nosafety
 //@   property C12
 //@   requires e.w != nil
 //@   modifies *
